@@ -77,6 +77,18 @@ Definition check_nogroup (exact cm : bool) (raw : raw_t) (query : list (Z * Z))
   && cmp exact q_gen (interp_genpos rows query)
   && fl_eqb (interp_genpos_f (to_frows cm raw) query) q_gen_f.
 
+(** remove_discrepancies: the reduced map, interpolation with the spline the object still holds (built from the old rows),
+    and interpolation after an explicit build_spline() *)
+Definition check_rmdisc (cm : bool) (raw : raw_t) (query : list (Z * Z))
+    (impl : list Z * list Z * list ext * list (list Z) * (list Z * list Z * list Z * list Z)) (isc : bool)
+    (stale rebuilt : list ext) : bool :=
+  let '(chr, phy, gen, pay, meta) := impl in
+  let rows := gm_rows (to_rows cm raw) in
+  let rows' := rd_rows rows in
+  zl_eqb (map r_chr rows') chr && zl_eqb (map r_phy rows') phy && extl_eqb (fin_gens rows') gen && zll_eqb (map r_pay rows') pay
+  && meta_eqb (group_meta (map r_chr rows')) meta && Bool.eqb (is_congruent rows') isc
+  && extl_eqb stale (interp_genpos rows query) && extl_close rebuilt (interp_genpos rows' query).
+
 Definition check_igmap (exact cm : bool) (raw : raw_t) (query : list (Z * Z)) (pay : list (list Z))
     (impl : list Z * list Z * list ext * (list Z * list Z * list Z * list Z)) (pay_impl : list (list Z)) (keys : list Z) : bool :=
   let '(chr, phy, gen, meta) := impl in
